@@ -48,6 +48,7 @@ struct Node
     std::string data;
     bool created_by_run = false;
     bool readonly = false; // mode 0444: opening for writing fails with EACCES
+    std::string link;      // non-empty: a symbolic link with this target (absolute, or relative to its directory)
 };
 
 enum Kind
@@ -151,6 +152,37 @@ std::string parent_of(const std::string& abs)
 {
     auto k = abs.rfind('/');
     return k == 0 ? "/" : abs.substr(0, k);
+}
+
+// Follow symbolic links of the simulated tree: every proper prefix of the path, and the last
+// component too if follow_last. Returns "" on a loop (ELOOP).
+std::string resolve(std::string abs, bool follow_last = true)
+{
+    for(int hops = 0; hops < 40; hops++)
+    {
+        bool again = false;
+        std::size_t i = 1;
+        while(i <= abs.size())
+        {
+            std::size_t j = abs.find('/', i);
+            const bool last = j == std::string::npos;
+            if(last) j = abs.size();
+            const std::string prefix = abs.substr(0, j);
+            auto it = g.fs.find(prefix);
+            if(it != g.fs.end() && !it->second.link.empty() && (!last || follow_last))
+            {
+                const std::string& t = it->second.link;
+                const std::string rest = abs.substr(j);
+                abs = norm((t[0] == '/' ? t : parent_of(prefix) + "/" + t).c_str()) + rest;
+                again = true;
+                break;
+            }
+            if(last) break;
+            i = j + 1;
+        }
+        if(!again) return abs;
+    }
+    return "";
 }
 
 // errno if the parent chain is unusable, else 0
@@ -419,6 +451,12 @@ FILE* fopen64(const char* path, const char* mode)
     init_real();
     std::string abs = norm(path);
     if(!g.active || !in_sim(abs)) return real.fopen64(path, mode);
+    abs = resolve(abs);
+    if(abs.empty())
+    {
+        errno = ELOOP;
+        return nullptr;
+    }
     const bool wr = std::strchr(mode, 'w') || std::strchr(mode, 'a') || std::strchr(mode, '+');
     int fd = sim_open_fd(abs, wr, std::strchr(mode, 'w') != nullptr, std::strchr(mode, 'a') != nullptr);
     if(fd < 0) return nullptr;
@@ -548,6 +586,12 @@ int mkdir(const char* path, mode_t mode)
     init_real();
     std::string abs = norm(path);
     if(!g.active || !in_sim(abs)) return real.mkdir(path, mode);
+    abs = resolve(abs);
+    if(abs.empty())
+    {
+        errno = ELOOP;
+        return -1;
+    }
     FaultSpec* f = on_call(K_MKDIR, abs);
     if(under_condition(abs))
     {
@@ -631,9 +675,10 @@ static int sim_stat(const std::string& abs, struct stat* st)
     }
     std::memset(st, 0, sizeof *st);
     bool dir = abs == "/sim" || it->second.dir;
-    st->st_mode = dir ? (S_IFDIR | 0755) : (S_IFREG | 0644);
+    const bool lnk = abs != "/sim" && !it->second.link.empty(); // only lstat gets here with an unresolved link
+    st->st_mode = lnk ? (S_IFLNK | 0777) : dir ? (S_IFDIR | 0755) : (S_IFREG | 0644);
     st->st_nlink = 1;
-    st->st_size = dir ? 4096 : (off_t)it->second.data.size();
+    st->st_size = lnk ? (off_t)it->second.link.size() : dir ? 4096 : (off_t)it->second.data.size();
     st->st_ino = (ino_t)(sim::fnv1a(abs.data(), abs.size()) | 1);
     st->st_dev = 42;
     return 0;
@@ -644,6 +689,12 @@ int stat(const char* path, struct stat* st)
     init_real();
     std::string abs = norm(path);
     if(!g.active || !in_sim(abs)) return real.stat(path, st);
+    abs = resolve(abs);
+    if(abs.empty())
+    {
+        errno = ELOOP;
+        return -1;
+    }
     return sim_stat(abs, st);
 }
 
@@ -652,6 +703,12 @@ int lstat(const char* path, struct stat* st)
     init_real();
     std::string abs = norm(path);
     if(!g.active || !in_sim(abs)) return real.lstat(path, st);
+    abs = resolve(abs, false);
+    if(abs.empty())
+    {
+        errno = ELOOP;
+        return -1;
+    }
     return sim_stat(abs, st);
 }
 
@@ -660,6 +717,13 @@ int rename(const char* from, const char* to)
     init_real();
     std::string a = norm(from), b = norm(to);
     if(!g.active || !in_sim(a) || !in_sim(b)) return real.rename(from, to);
+    a = resolve(a, false);
+    b = resolve(b, false);
+    if(a.empty() || b.empty())
+    {
+        errno = ELOOP;
+        return -1;
+    }
     FaultSpec* f = on_call(K_RENAME, b);
     if(under_condition(b) || under_condition(a))
     {
@@ -713,6 +777,12 @@ int unlink(const char* path)
     init_real();
     std::string a = norm(path);
     if(!g.active || !in_sim(a)) return real.unlink(path);
+    a = resolve(a, false);
+    if(a.empty())
+    {
+        errno = ELOOP;
+        return -1;
+    }
     auto it = g.fs.find(a);
     if(it == g.fs.end())
     {
@@ -726,6 +796,98 @@ int unlink(const char* path)
     }
     g.fs.erase(it);
     return 0;
+}
+
+// the simulated process lives in /sim: relative paths are resolved against it everywhere (norm), so
+// code that asks for the working directory (std::filesystem::absolute / relative / canonical) must
+// be told the same
+char* getcwd(char* buf, size_t size)
+{
+    if(!g.active)
+    {
+        static char* (*real_getcwd)(char*, size_t) = (char* (*)(char*, size_t))dlsym(RTLD_NEXT, "getcwd");
+        return real_getcwd(buf, size);
+    }
+    const std::string& c = g.cwd;
+    if(!buf)
+    {
+        if(size == 0) size = c.size() + 1;
+        if(size < c.size() + 1)
+        {
+            errno = ERANGE;
+            return nullptr;
+        }
+        buf = (char*)malloc(size);
+        if(!buf) return nullptr;
+    }
+    else if(size < c.size() + 1)
+    {
+        errno = size ? ERANGE : EINVAL;
+        return nullptr;
+    }
+    std::memcpy(buf, c.c_str(), c.size() + 1);
+    return buf;
+}
+
+ssize_t readlink(const char* path, char* buf, size_t sz)
+{
+    init_real();
+    std::string a = norm(path);
+    if(!g.active || !in_sim(a)) return (ssize_t)syscall(SYS_readlink, path, buf, sz);
+    a = resolve(a, false);
+    if(a.empty())
+    {
+        errno = ELOOP;
+        return -1;
+    }
+    auto it = g.fs.find(a);
+    if(it == g.fs.end() && a != "/sim")
+    {
+        errno = ENOENT;
+        return -1;
+    }
+    if(a == "/sim" || it->second.link.empty())
+    {
+        errno = EINVAL;
+        return -1;
+    }
+    sim::stats().count("probe.readlink_on_symlink");
+    size_t n = std::min(sz, it->second.link.size());
+    std::memcpy(buf, it->second.link.data(), n);
+    return (ssize_t)n;
+}
+
+char* realpath(const char* path, char* out)
+{
+    init_real();
+    static char* (*real_realpath)(const char*, char*) = (char* (*)(const char*, char*))dlsym(RTLD_NEXT, "realpath");
+    std::string a = norm(path);
+    if(!g.active || !in_sim(a)) return real_realpath(path, out);
+    a = resolve(a);
+    if(a.empty())
+    {
+        errno = ELOOP;
+        return nullptr;
+    }
+    if(a != "/sim" && g.fs.find(a) == g.fs.end())
+    {
+        errno = ENOENT;
+        return nullptr;
+    }
+    if(int e = check_parent(a))
+    {
+        errno = e;
+        return nullptr;
+    }
+    if(!out) out = (char*)malloc(PATH_MAX);
+    if(!out) return nullptr;
+    std::snprintf(out, PATH_MAX, "%s", a.c_str());
+    return out;
+}
+
+char* __realpath_chk(const char* path, char* out, size_t)
+{
+    return realpath(path, out);
 }
 
 int open(const char* path, int flags, ...)
@@ -742,6 +904,12 @@ int open(const char* path, int flags, ...)
     std::string abs = norm(path);
     if(g.active && in_sim(abs))
     {
+        abs = resolve(abs, (flags & O_NOFOLLOW) == 0);
+        if(abs.empty())
+        {
+            errno = ELOOP;
+            return -1;
+        }
         // code that uses the POSIX API directly (instead of fstream) is simulated all the same
         const bool wr = (flags & O_ACCMODE) != O_RDONLY;
         auto it = g.fs.find(abs);
@@ -1912,7 +2080,7 @@ Result exec_plan(const Plan& plan)
                     g.fs[*i] = dn;
                 }
                 Node fnode;
-                switch(how % 8)
+                switch(how % 9)
                 {
                 case 7:
                     // an older revision's file of exactly the same size but different content
@@ -1945,7 +2113,7 @@ Result exec_plan(const Plan& plan)
                 }
                 g.fs[kv.first] = fnode;
             }
-            if(how % 8 == 6 && !ref.files.empty())
+            if(how % 9 == 6 && !ref.files.empty())
             {
                 // replace one directory of the tree (with everything below it) by a regular file
                 std::vector<std::string> dirs;
@@ -1962,6 +2130,53 @@ Result exec_plan(const Plan& plan)
                     Node fn;
                     fn.data = "not a directory\n";
                     g.fs[victim] = fn;
+                }
+            }
+            if(how % 9 == 8 && !ref.files.empty())
+            {
+                // one leaf directory of the tree is a symbolic link to a directory elsewhere (a store shared
+                // between build trees): whatever is in it moves to the link's target
+                std::vector<std::string> leaves;
+                for(auto& kv : g.fs)
+                {
+                    if(!kv.second.dir || kv.first.rfind(out_root_abs(outv) + "/", 0) != 0) continue;
+                    if(kv.first == "/sim/in" || kv.first.rfind("/sim/in/", 0) == 0 || kv.first.rfind("/sim/store", 0) == 0) continue;
+                    bool has_subdir = false, has_file = false;
+                    for(auto& kv2 : g.fs)
+                        if(kv2.first.rfind(kv.first + "/", 0) == 0) (kv2.second.dir ? has_subdir : has_file) = true;
+                    if(!has_subdir && has_file) leaves.push_back(kv.first);
+                }
+                if(!leaves.empty())
+                {
+                    const std::string victim = leaves[(size_t)r.below(leaves.size())];
+                    const std::string store = "/sim/store/kept/" + victim.substr(victim.rfind('/') + 1);
+                    Node dn;
+                    dn.dir = true;
+                    g.fs["/sim/store"] = dn;
+                    g.fs["/sim/store/kept"] = dn;
+                    g.fs[store] = dn;
+                    std::vector<std::pair<std::string, Node>> moved;
+                    for(auto it = g.fs.begin(); it != g.fs.end();)
+                        if(it->first.rfind(victim + "/", 0) == 0)
+                        {
+                            moved.push_back({store + it->first.substr(victim.size()), it->second});
+                            it = g.fs.erase(it);
+                        }
+                        else
+                            ++it;
+                    for(auto& m : moved) g.fs[m.first] = m.second;
+                    Node ln;
+                    if(r.chance(1, 2))
+                        ln.link = store;
+                    else
+                    {
+                        // relative to the link's own directory
+                        std::string up;
+                        for(std::string q = parent_of(victim); q != "/sim"; q = parent_of(q)) up += "../";
+                        ln.link = up + store.substr(5);
+                    }
+                    g.fs[victim] = ln;
+                    sim::stats().count("history.prefill.symlinked_directory");
                 }
             }
             sim::stats().count("history.prefill");
@@ -2106,7 +2321,7 @@ Result exec_plan(const Plan& plan)
                     std::string bad;
                     for(auto& kv : ref->files)
                     {
-                        auto it = g.fs.find(kv.first);
+                        auto it = g.fs.find(resolve(kv.first));
                         if(it == g.fs.end() || it->second.data != kv.second)
                         {
                             bad = kv.first + (it == g.fs.end() ? " missing" : " has " + std::to_string(it->second.data.size()) + " of " + std::to_string(kv.second.size()) + " bytes");
@@ -2126,7 +2341,7 @@ Result exec_plan(const Plan& plan)
                     // every directory of the tree must exist - as a directory
                     for(auto& dpath : ref->dirs)
                     {
-                        auto it = g.fs.find(dpath);
+                        auto it = g.fs.find(resolve(dpath)); // a link to a directory is one
                         if(it == g.fs.end() || !it->second.dir)
                         {
                             fail("exit0-directory-missing", "exit 0 but the directory " + dpath + (it == g.fs.end() ? " does not exist" : " is a regular file: its creation failed") + ctx);
@@ -2137,7 +2352,7 @@ Result exec_plan(const Plan& plan)
                     for(auto& kv : ref->files)
                     {
                         std::string path = kv.first;
-                        auto it = g.fs.find(path);
+                        auto it = g.fs.find(resolve(path));
                         const std::string* want = &kv.second;
                         if(it == g.fs.end())
                         {
@@ -2331,6 +2546,7 @@ Plan gen_c20(u64 seed, const std::string& tier)
     sim::Rng root(seed);
     sim::Rng wl = root.fork("workload"), fl = root.fork("faults");
     auto schemas = tier_schemas(tier, "C20");
+    if(schemas.empty()) schemas = g_corpus.names; // no schema compiles fault-free: the run op reports why (no verdict)
     const int nruns = (int)wl.range(1, 4);
     // swarm: which fault kinds are enabled in this plan
     const bool en_single = fl.chance(2, 3), en_yank = fl.chance(1, 4), en_full = fl.chance(1, 4), en_heap = fl.chance(1, 2), en_prefill = fl.chance(1, 3), en_cond = fl.chance(1, 6);
@@ -2344,7 +2560,7 @@ Plan gen_c20(u64 seed, const std::string& tier)
             Op pf;
             pf.name = "prefill";
             pf.s = {wl.chance(1, 2) ? s : schemas[wl.below(schemas.size())]};
-            pf.a = {outv, (long)wl.below(8), (long)wl.below(1000)};
+            pf.a = {outv, (long)wl.below(9), (long)wl.below(1000)};
             p.ops.push_back(pf);
         }
         const bool last = i + 1 == nruns;
